@@ -45,13 +45,14 @@ class Sender:
     """Everything about one sender: address as passed to send_tx, the scriptPubKey its UTXOs carry
     (built here from the templates, not by the code under test) and the WIF keys."""
 
-    def __init__(self, kind, rnd, m=1, n=1):
+    def __init__(self, kind, rnd, m=1, n=1, ds=None):
         import bits
 
         self.kind = kind
         base = kind[:-2] if kind.endswith("-c") else kind
         self.base = base
-        ds = [rnd.randrange(1, N) for _ in range(n if base in ("multisig", "p2sh", "p2wsh", "p2sh-p2wsh") else 1)]
+        ds = ds or [rnd.randrange(1, N) for _ in range(n if base in ("multisig", "p2sh", "p2wsh", "p2sh-p2wsh") else 1)]
+        self.ds = ds
         net = "regtest"
         keyb = [d.to_bytes(32, "big") for d in ds]
         if base == "p2pk":
@@ -133,7 +134,7 @@ FLOAT_HOSTILE = [29000000, 57000000, 58000000, 113000000, 115000000, 1001, 1999,
 
 
 def make_case(rnd, *, kind, rkind, signed, flag, n_utxo, num, den, fee, version, lock, change, m=1, n=1, amounts=None, vouts=None,
-              snd=None):
+              snd=None, same_txid=False):
     snd = snd or Sender(kind, rnd, m=m, n=n)
     raddr, rspk = recipient(rkind, rnd)
     caddr, cspk = (recipient(change, rnd) if change else (None, snd.spk))
@@ -141,6 +142,9 @@ def make_case(rnd, *, kind, rkind, signed, flag, n_utxo, num, den, fee, version,
     for i in range(n_utxo):
         sat = amounts[i] if amounts else rnd.choice(FLOAT_HOSTILE + [rnd.randrange(2000, 5 * 10**9)])
         utxos.append({"txid": rnd.randbytes(32), "vout": vouts[i] if vouts else rnd.randrange(0, 6), "sat": sat})
+    if same_txid:       # several outputs of ONE funding transaction: same txid, distinct output indices
+        for i, u in enumerate(utxos):
+            u["txid"], u["vout"] = utxos[0]["txid"], i + (vouts[0] if vouts else 0)
     req = sum(u["sat"] for u in utxos) * num // den
     fee = min(fee, req)
     return dict(snd=snd, raddr=raddr, rspk=rspk, caddr=caddr, cspk=cspk, utxos=utxos, signed=signed, flag=flag, num=num, den=den,
@@ -234,6 +238,18 @@ def gen_cases(ctx, rnd):
                                n_utxo=1 if i % 4 else 2, num=1, den=rnd.choice([1, 2]), fee=1000, version=rnd.choice([1, 2]),
                                lock=rnd.choice([0, 7]), change="p2pkh" if kind == "multisig" else rnd.choice([None, "p2pkh"]), m=mm, n=nn,
                                vouts=None))
+    # 6. several outputs of one funding transaction (same txid, different vout), all needed
+    for i in range(3 if quick else 60):
+        kind = ["p2wpkh", "p2pkh-c", "p2wsh"][i % 3]
+        cases.append(make_case(rnd, kind=kind, rkind=rk[i % len(rk)], signed=(kind != "p2pkh-c"), flag=FLAGS[i % 6], n_utxo=rnd.randint(2, 4),
+                               num=1, den=1, fee=1000, version=2, lock=0, change=None, m=1, n=2, same_txid=True))
+    # 7. ONE private key used in several forms in one process: uncompressed p2pkh, then p2wpkh (compressed), p2pk, p2pkh-c, ...
+    for i in range(1 if quick else 20):
+        d = [rnd.randrange(1, N)]
+        for kind in ["p2pkh", "p2wpkh", "p2pk", "p2pkh-c", "p2sh-p2wpkh", "p2pk-c", "p2pkh"]:
+            snd = Sender(kind, rnd, ds=d)
+            cases.append(make_case(rnd, kind=kind, rkind="p2pkh", signed=True, flag=1, n_utxo=1, num=1, den=1, fee=1000, version=1,
+                                   lock=0, change=None, snd=snd, amounts=[50000000], vouts=[0]))
     # 5. histories: the SAME sender calls send several times in one process while its reported UTXO set changes
     for i in range(3 if quick else 40):
         kind = ["p2wpkh", "p2pkh-c", "p2sh-p2wpkh", "p2wsh"][i % 4]
